@@ -38,12 +38,31 @@ def replace_guard(chk: Check, eng: Engine, rule: str, need: set[str]) -> None:
     T = eng.cls(TREE, "DerivationTree")
     rm = eng.method(T, "replace_multiple", inherited=False)
     cfg = eng.cfg(rm)
+    # R: expressions that denote the replacement looked up for the current path
+    #    path_to_replacement[current_path] | path_to_replacement.get(current_path) | a local assigned from one of them
+    table = "path_to_replacement"
+
+    def is_lookup(e: ast.AST) -> bool:
+        if isinstance(e, ast.Subscript) and norm(e.value) == table and norm(e.slice) == "current_path":
+            return True
+        if isinstance(e, ast.Call) and isinstance(e.func, ast.Attribute) and e.func.attr == "get" and norm(e.func.value) == table and e.args and norm(e.args[0]) == "current_path":
+            return True
+        return False
+
+    rlocals = {t.id for n in walk_local(rm.node) if isinstance(n, ast.Assign) and is_lookup(n.value) for t in n.targets if isinstance(t, ast.Name)}
+    may_be_none = {t.id for n in walk_local(rm.node) if isinstance(n, ast.Assign) and is_lookup(n.value) and isinstance(n.value, ast.Call) for t in n.targets if isinstance(t, ast.Name)}
+
+    def is_R(e: ast.AST) -> bool:
+        return is_lookup(e) or (isinstance(e, ast.Name) and e.id in rlocals)
+
+    def is_install(st: ast.AST) -> bool:
+        return any(isinstance(c, ast.Call) and isinstance(c.func, ast.Attribute) and c.func.attr in ("deepcopy", "__deepcopy__", "copy") and is_R(c.func.value) for c in ast.walk(st)) or \
+            any(isinstance(r, ast.Return) and r.value is not None and is_R(r.value) for r in ast.walk(st))
+
     guards = []
     for n in cfg.nodes:
-        if n.kind == "if":
-            body_src = norm(ast.Module(body=n.ast.body, type_ignores=[]))  # type: ignore[union-attr]
-            if "path_to_replacement[current_path]" in body_src and "deepcopy" in body_src:
-                guards.append(n)
+        if n.kind == "if" and any(is_install(st) for st in n.ast.body):  # type: ignore[union-attr]
+            guards.append(n)
     if len(guards) != 1:
         raise AnalysisError(f"replace_multiple: substitution branch not recognised ({len(guards)} candidates)")
     g = guards[0]
@@ -51,13 +70,22 @@ def replace_guard(chk: Check, eng: Engine, rule: str, need: set[str]) -> None:
     conj = test.values if isinstance(test, ast.BoolOp) and isinstance(test.op, ast.And) else [test]
     have: dict[str, ast.AST] = {}
     for c in conj:
-        s = norm(c)
-        if isinstance(c, ast.Compare) and isinstance(c.ops[0], ast.In) and "path_to_replacement" in s and "current_path" in s:
-            have["path"] = c
-        elif isinstance(c, ast.Compare) and isinstance(c.ops[0], ast.Eq) and "self.symbol" in s and "path_to_replacement[current_path].symbol" in s:
-            have["symbol"] = c
+        if isinstance(c, ast.Compare) and len(c.ops) == 1:
+            l, r, op = c.left, c.comparators[0], c.ops[0]
+            if isinstance(op, ast.In) and norm(l) == "current_path" and norm(r) == table:
+                have["path"] = c
+            elif isinstance(op, ast.IsNot) and isinstance(l, ast.Name) and l.id in may_be_none and isinstance(r, ast.Constant) and r.value is None:
+                have["path"] = c
+            elif isinstance(op, ast.Eq):
+                sides = [l, r]
+                own = [x for x in sides if norm(x) == "self.symbol"]
+                other = [x for x in sides if isinstance(x, ast.Attribute) and x.attr == "symbol" and is_R(x.value)]
+                if own and other:
+                    have["symbol"] = c
         elif isinstance(c, ast.UnaryOp) and isinstance(c.op, ast.Not) and norm(c.operand) == "self.read_only":
             have["read_only"] = c
+        elif isinstance(c, ast.Name) and c.id in may_be_none:
+            have["path"] = c
     for k in sorted(need):
         if k in have:
             chk.ok(rule, rm.fq, g.line, f"substitution guard contains the conjunct `{short(have[k])}` [{k}]")
@@ -69,7 +97,7 @@ def replace_guard(chk: Check, eng: Engine, rule: str, need: set[str]) -> None:
             }[k]
             chk.bad(rule, eng.relfile(rm), g.line, rm.fq, f"substitution guard `{short(test, 120)}` lacks the {k} conjunct", why, keyparts=f"guard-missing|{k}")
     # the foreign subtree is installed only behind the true edge of that guard
-    installs = [n for n in cfg.nodes if n.kind == "stmt" and n.ast is not None and "path_to_replacement[current_path]" in norm(n.ast) and "deepcopy" in norm(n.ast)]
+    installs = [n for n in cfg.nodes if n.kind == "stmt" and n.ast is not None and is_install(n.ast)]
     for i in installs:
         p = cfg.find_path(cfg.entry, [i.id], ignore_edges={(g.id, "true")})
         if p is None:
@@ -351,7 +379,20 @@ def rule_d(chk: Check, eng: Engine) -> None:
         else:
             chk.bad("R01-d", eng.relfile(gr), c.lineno, gr.fq, f"`{short(c)}` does not parse under the target's symbol",
                     "the repaired subtree derives from another symbol than the node it replaces", keyparts="repair-start")
-    short_ifs = [n for n in walk_local(gr.node) if isinstance(n, ast.If) and "deepcopy" in norm(ast.Module(body=n.body, type_ignores=[]))]
+    # the shortcut that installs (a copy of) the other side's tree itself: an `if` whose body returns a pair built from self._source
+    src_locals = {t.id for n in walk_local(gr.node) if isinstance(n, ast.Assign) and "self._source" in norm(n.value) and not any(isinstance(c, ast.Call) and call_name(c) == "parse" for c in ast.walk(n.value))
+                  for t in n.targets if isinstance(t, ast.Name)}
+
+    def returns_source(body: list[ast.stmt]) -> bool:
+        for st in body:
+            for r in ast.walk(st):
+                if isinstance(r, ast.Return) and r.value is not None:
+                    for tup in ast.walk(r.value):
+                        if isinstance(tup, ast.Tuple) and len(tup.elts) == 2 and (norm(tup.elts[1]) == "self._source" or (isinstance(tup.elts[1], ast.Name) and tup.elts[1].id in src_locals)):
+                            return True
+        return False
+
+    short_ifs = [n for n in walk_local(gr.node) if isinstance(n, ast.If) and returns_source(n.body)]
     for n in short_ifs:
         if "symbol == self._source.symbol" in norm(n.test) or "self._source.symbol == symbol" in norm(n.test):
             chk.ok("R01-d", gr.fq, n.lineno, f"same-symbol shortcut guarded by `{short(n.test, 70)}`")
@@ -536,6 +577,7 @@ _N = "src/fandango/language/grammar/nodes/node.py"
 _CMP = "src/fandango/constraints/comparison.py"
 _CX = "src/fandango/evolution/crossover.py"
 MUTANTS = [
+    M("guard-checks-the-replacements-flag", "src/fandango/language/tree.py", "        if (\n            current_path in path_to_replacement\n            and self.symbol == path_to_replacement[current_path].symbol\n            and not self.read_only\n        ):\n            new_subtree = path_to_replacement[current_path].deepcopy(\n", "        replacement = path_to_replacement.get(current_path)\n        if (\n            replacement is not None\n            and replacement.symbol == self.symbol\n            and not replacement.read_only\n        ):\n            new_subtree = replacement.deepcopy(\n", "R01-a"),
     M("initial-population-default-start", "src/fandango/evolution/algorithm.py", "                tree = self.grammar.parse(individual, start=self.start_symbol)\n", "                tree = self.grammar.parse(individual)\n", "R01-g"),
     M("api-parse-default-start", "src/fandango/api.py", "            word, mode=mode, start=self._start_symbol, **settings\n", "            word, mode=mode, **settings\n", "R01-g"),
     M("population-fuzz-fixed-start", "src/fandango/evolution/population.py", "        return self._grammar.fuzz(self._start_symbol, max_nodes)\n", "        return self._grammar.fuzz(\"<start>\", max_nodes)\n", "R01-g"),
@@ -558,6 +600,7 @@ MUTANTS = [
     M("crossover-different-symbols", _CX, "        nodes2 = parent2.find_all_nodes(symbol)\n", "        nodes2 = parent2.find_all_nodes(random.choice(list(common_symbols)))\n", "R01-d"),
 ]
 TWINS = [
+    M("twin-guard-with-hoisted-lookup", "src/fandango/language/tree.py", "        if (\n            current_path in path_to_replacement\n            and self.symbol == path_to_replacement[current_path].symbol\n            and not self.read_only\n        ):\n            new_subtree = path_to_replacement[current_path].deepcopy(\n", "        replacement = path_to_replacement.get(current_path)\n        if (\n            replacement is not None\n            and replacement.symbol == self.symbol\n            and not self.read_only\n        ):\n            new_subtree = replacement.deepcopy(\n", None),
     M("twin-guard-reordered", _T, "            current_path in path_to_replacement\n            and self.symbol == path_to_replacement[current_path].symbol\n            and not self.read_only\n",
       "            current_path in path_to_replacement\n            and not self.read_only\n            and self.symbol == path_to_replacement[current_path].symbol\n", None),
     M("twin-rep-goal-comment", _R, "        rep_goal = random.randint(self.min, self.max)\n", "        # draw the number of repetitions\n        rep_goal = random.randint(self.min, self.max)\n", None),
